@@ -61,6 +61,20 @@ func init() {
 			ref := map[[32]byte]transaction.Transaction{}
 			for step := 0; step < 40; step++ {
 				t := pool[c.Rnd.Intn(len(pool))]
+				// the same cache object also holds the per-address balance cache: using it must not show in the
+				// awaiting index (no trace line: for the model these calls do not exist)
+				if c.Rnd.Intn(3) == 0 {
+					a := w.wallets[c.Rnd.Intn(3)].Address()
+					switch c.Rnd.Intn(3) {
+					case 0:
+						hc.SaveBalance(a, spice.Melange{Currency: uint64(step), SupplementaryCurrency: 7})
+					case 1:
+						hc.ReadBalance(a)
+					case 2:
+						hc.RemoveBalance(a)
+					}
+					c.Count("balance-cache-call")
+				}
 				switch c.Rnd.Intn(10) {
 				case 0, 1, 2, 3:
 					err := hc.SaveAwaitedTransaction(&t)
